@@ -1,10 +1,11 @@
 #!/bin/bash
-# tools/seeded_matrix.sh [tier] [seed]: run every seeded change against the check of its own property (+ extra checks
-# listed in seeded/<id>/also) and write seeded/<id>/caught.json
+# tools/seeded_matrix.sh [tier] [seed] [id-regex]: run every seeded change (whose id matches the regex, default all)
+# against the check of its own property (+ extra checks listed in seeded/<id>/also) and write seeded/<id>/caught.json
 cd "$(dirname "$0")/.."
-tier=${1:-quick}; seed=${2:-0}
+tier=${1:-quick}; seed=${2:-0}; only=${3:-.}
 for d in seeded/*/; do
   sid=$(basename $d); own=${sid%%-*}
+  echo "$sid" | grep -qE "$only" || continue
   [ -f $d/NEUTRALISED ] && { echo '{"note": "neutralised, see NEUTRALISED"}' > $d/caught.json; continue; }
   res="{"
   for chk in $own $(cat $d/also 2>/dev/null); do
